@@ -1640,3 +1640,200 @@ Example af_publish_example :
   let s := prun pinit [PNew 0; PMove 0; PWrite 1 5; PNew 1; PAssign 2 1; PWrite 2 7; PDtor 0; PDtor 1; PDtor 2]%nat in
   dpub (cells s 0%nat) = 1%nat /\ dpubval (cells s 0%nat) = Some 7 /\ dpub (cells s 1%nat) = 1%nat /\ dpubval (cells s 1%nat) = None.
 Proof. vm_compute. repeat split; reflexivity. Qed.
+
+(* ======================================================================================== *)
+(* H. Graph::run binding its targets: the closure finishes with success only when run() is   *)
+(*    through and every requested target is sealed (needs count-before-attach)                *)
+(* ======================================================================================== *)
+Definition BReach (n : nat) (s : bst) : Prop := reachable bst bstep (binit n) s.
+
+Lemma bk_order : (bind_counts_before_attach =? 1) = true. Proof. reflexivity. Qed.
+Lemma bk_undo : (bind_undoes_on_failure =? 1) = true. Proof. reflexivity. Qed.
+
+Lemma bcontrib_nonneg : forall t, 0 <= bcontrib t.
+Proof. intros [a [| | |] [| |]]; destruct a; cbn; lia. Qed.
+Lemma bsum_nonneg : forall l, 0 <= bsum l.
+Proof. induction l as [|t l IH]; cbn [bsum]; [lia | pose proof (bcontrib_nonneg t); lia]. Qed.
+Lemma bsum_zero : forall l, bsum l = 0 -> forall t, In t l -> bcontrib t = 0.
+Proof.
+  induction l as [|x l IH]; intros H t Hin; [destruct Hin|]. cbn [bsum] in H. pose proof (bcontrib_nonneg x). pose proof (bsum_nonneg l).
+  destruct Hin as [->|Hin]; [lia | apply IH; [lia | assumption]].
+Qed.
+Lemma bsum_lset : forall l i t t', nth_error l i = Some t -> bsum (lset i t' l) + bcontrib t = bsum l + bcontrib t'.
+Proof.
+  induction l as [|x l IH]; intros [|i] t t' H; cbn in H; try discriminate.
+  - inversion H; subst. cbn [lset bsum]. lia.
+  - cbn [lset bsum]. specialize (IH i t t' H). lia.
+Qed.
+Lemma lset_nth_cases : forall A (l : list A) i x k y, nth_error l i <> None -> nth_error (lset i x l) k = Some y ->
+  (k = i /\ y = x) \/ (k <> i /\ nth_error l k = Some y).
+Proof.
+  intros A l i x k y Hi H. destruct (Nat.eq_dec k i) as [->|Hne].
+  - rewrite lset_nth_same in H by (now apply nth_error_Some). inversion H. auto.
+  - rewrite lset_nth_other in H by assumption. auto.
+Qed.
+
+Definition tgt_ok (cur k : nat) (t : btgt) : Prop :=
+  ((k < cur)%nat -> bp t = BDone) /\ ((cur < k)%nat -> bp t = BIdle) /\ (bp t <> BDone -> batt t = false) /\
+  (bp t = BUndo -> bsealed t = true) /\ (bp t = BDone -> batt t = false -> bsealed t = true) /\ (rp t = RSub -> batt t = true).
+
+Definition binv (s : bst) : Prop :=
+  bdata s = (if bfired s then 0 else 1) + bsum (btargets s) /\
+  (forall k t, nth_error (btargets s) k = Some t -> tgt_ok (bcur s) k t) /\
+  (bfired s = true -> (length (btargets s) <= bcur s)%nat) /\
+  bearly s = false /\
+  (forall c, bfin s = Some c -> c = 0 /\ bfired s = true /\ all_sealed (btargets s) = true).
+
+Lemma binv_init : forall n, binv (binit n).
+Proof.
+  intro n. unfold binv, binit; cbn [bdata bfired btargets bcur bearly bfin].
+  split; [|split; [|split; [discriminate|split; [reflexivity | discriminate]]]].
+  - assert (bsum (repeat {| batt := false; bp := BIdle; rp := RIdle |} n) = 0) by (induction n; cbn; auto). rewrite H. reflexivity.
+  - intros k t Hk. apply nth_error_In in Hk. apply repeat_spec in Hk. subst t. unfold tgt_ok; cbn. repeat split; auto; try discriminate; try lia.
+Qed.
+
+(* when the count reaches 0 under the invariant's equation, run() has fired and every target is sealed *)
+Lemma zero_means_done : forall l cur (fired : bool),
+  (if fired then 0 else 1) + bsum l = 0 -> (forall k t, nth_error l k = Some t -> tgt_ok cur k t) ->
+  (fired = true -> (length l <= cur)%nat) -> fired = true /\ all_sealed l = true.
+Proof.
+  intros l cur fired Hz Hok Hf. pose proof (bsum_nonneg l). destruct fired; [|lia]. split; [reflexivity|].
+  apply forallb_forall. intros t Hin. pose proof (bsum_zero l ltac:(lia) t Hin) as Hc.
+  apply In_nth_error in Hin. destruct Hin as [k Hk]. destruct (Hok k t Hk) as (Ha & _ & _ & _ & He & _).
+  assert (Hkl : (k < length l)%nat) by (apply nth_error_Some; congruence). specialize (Hf eq_refl).
+  assert (Hd : bp t = BDone) by (apply Ha; lia). unfold bcontrib in Hc. rewrite Hd in Hc.
+  destruct (batt t) eqn:Eb; [|now apply He]. unfold bsealed. destruct (rp t); [lia | reflexivity | reflexivity].
+Qed.
+
+(* the three places that call depend_data_sub *)
+Lemma binv_sub : forall s l cur (fired : bool),
+  bearly s = false -> (forall c, bfin s = Some c -> c = 0 /\ bfired s = true /\ all_sealed (btargets s) = true) ->
+  bdata s - 1 = (if fired then 0 else 1) + bsum l ->
+  (forall k t, nth_error l k = Some t -> tgt_ok cur k t) -> (fired = true -> (length l <= cur)%nat) ->
+  (bfired s = true -> fired = true) -> (all_sealed (btargets s) = true -> all_sealed l = true) ->
+  binv (b_sub s l cur fired).
+Proof.
+  intros s l cur fired He Hfin Hd Hok Hf Hmono Hsm. unfold binv, b_sub; cbn [bdata bfired btargets bcur bearly bfin].
+  split; [exact Hd|]. split; [exact Hok|]. split; [exact Hf|].
+  destruct (closure_finish_fires (bdata s - 1)) eqn:Ef.
+  - apply closure_finish_fires_spec in Ef. rewrite Ef in Hd. destruct (zero_means_done l cur fired (eq_sym Hd) Hok Hf) as [H1 H2].
+    split.
+    + rewrite He, H1, H2. cbn. destruct (bfin s); reflexivity.
+    + intros c Hc. destruct (bfin s) as [c0|] eqn:E0; cbn in Hc.
+      * inversion Hc; subst c0. destruct (Hfin c eq_refl) as (X & _ & _). auto.
+      * inversion Hc. auto.
+  - split; [rewrite He; reflexivity|]. intros c Hc. destruct (Hfin c Hc) as (X & Y & Z). auto.
+Qed.
+
+Lemma all_sealed_lset : forall l i t t', nth_error l i = Some t -> (bsealed t = true -> bsealed t' = true) ->
+  all_sealed l = true -> all_sealed (lset i t' l) = true.
+Proof.
+  induction l as [|x l IH]; intros [|i] t t' H Hs Ha; cbn in H; try discriminate; cbn [all_sealed forallb lset] in *;
+    apply andb_prop in Ha; destruct Ha as [A1 A2].
+  - inversion H; subst. rewrite (Hs A1), A2. reflexivity.
+  - rewrite A1. cbn. eapply IH; eauto.
+Qed.
+
+Lemma binv_step : forall s t s', binv s -> bstep s t = Some s' -> binv s'.
+Proof.
+  intros s t s' (B1 & B2 & B3 & B4 & B5) Hst.
+  destruct t as [|k]; cbn [bstep] in Hst.
+  - destruct (nth_error (btargets s) (bcur s)) as [tg|] eqn:Ec.
+    + assert (Hnn : nth_error (btargets s) (bcur s) <> None) by congruence.
+      destruct (B2 _ _ Ec) as (Ta & Tb & Tc & Td & Te & Tf).
+      assert (Hnf : bfired s = false).
+      { destruct (bfired s) eqn:E; [|reflexivity]. specialize (B3 eq_refl). apply nth_error_Some in Hnn. lia. }
+      (* a generic way to re-establish the per-target part after replacing the current target *)
+      assert (Hupd : forall x cur', (cur' = bcur s \/ cur' = S (bcur s)) -> tgt_ok cur' (bcur s) x ->
+                forall k t0, nth_error (lset (bcur s) x (btargets s)) k = Some t0 -> tgt_ok cur' k t0).
+      { intros x cur' Hc' Hx k t0 Hk. destruct (lset_nth_cases _ _ _ _ _ _ Hnn Hk) as [[-> ->]|[Hne Hk0]]; [exact Hx|].
+        destruct (B2 _ _ Hk0) as (A & B & C & D & E & F). unfold tgt_ok. repeat split; auto; intro; [apply A | apply B]; lia. }
+      destruct (bp tg) eqn:Ep; rewrite ?bk_order, ?bk_undo in Hst.
+      * (* count *)
+        inversion Hst; subst s'; clear Hst. unfold binv, b_set; cbn [bdata bfired btargets bcur bearly bfin].
+        pose proof (bsum_lset _ _ _ {| batt := batt tg; bp := BMid; rp := rp tg |} Ec) as Hs.
+        unfold bcontrib at 1 2 in Hs. cbn [bp] in Hs. rewrite Ep in Hs.
+        split; [lia|]. split; [|split; [rewrite lset_length; exact B3|split; [exact B4|]]].
+        -- apply Hupd; [now left|]. unfold tgt_ok; cbn [bp batt rp]. repeat split; try discriminate; try lia; auto.
+           intros _. apply Tc. congruence.
+        -- intros c Hc. destruct (B5 c Hc) as (X & Y & Z). congruence.
+      * (* CAS *)
+        assert (Hatt : batt tg = false) by (apply Tc; congruence).
+        destruct (bsealed tg) eqn:Es; inversion Hst; subst s'; clear Hst; unfold binv, b_set; cbn [bdata bfired btargets bcur bearly bfin].
+        -- pose proof (bsum_lset _ _ _ {| batt := false; bp := BUndo; rp := rp tg |} Ec) as Hs.
+           unfold bcontrib at 1 2 in Hs. cbn [bp] in Hs. rewrite Ep in Hs.
+           split; [lia|]. split; [|split; [rewrite lset_length; exact B3|split; [exact B4|]]].
+           ++ apply Hupd; [now left|]. unfold tgt_ok; cbn [bp batt rp]. repeat split; try discriminate; try lia; auto.
+              intro X. destruct (rp tg); [discriminate | | discriminate]. specialize (Tf eq_refl). congruence.
+           ++ intros c Hc. destruct (B5 c Hc) as (X & Y & Z). congruence.
+        -- pose proof (bsum_lset _ _ _ {| batt := true; bp := BDone; rp := rp tg |} Ec) as Hs.
+           unfold bcontrib at 1 2 in Hs. cbn [bp batt rp] in Hs. rewrite Ep in Hs.
+           assert (Hri : rp tg = RIdle) by (unfold bsealed in Es; destruct (rp tg); [reflexivity | discriminate | discriminate]).
+           rewrite Hri in Hs |- *.
+           split; [lia|]. split; [|split; [intro X; congruence|split; [exact B4|]]].
+           ++ apply Hupd; [now right|]. unfold tgt_ok; cbn [bp batt rp]. repeat split; try discriminate; try lia; auto. congruence.
+           ++ intros c Hc. destruct (B5 c Hc) as (X & Y & Z). congruence.
+      * (* undo: depend_data_sub *)
+        inversion Hst; subst s'; clear Hst.
+        assert (Hatt : batt tg = false) by (apply Tc; congruence).
+        pose proof (bsum_lset _ _ _ {| batt := false; bp := BDone; rp := rp tg |} Ec) as Hs.
+        unfold bcontrib at 1 2 in Hs. cbn [bp batt rp] in Hs. rewrite Ep in Hs.
+        apply binv_sub; try assumption.
+        -- rewrite Hnf. rewrite Hnf in B1. lia.
+        -- apply Hupd; [now right|]. unfold tgt_ok; cbn [bp batt rp]. repeat split; try discriminate; try lia; auto;
+             try (intros _ _; exact (Td eq_refl)); try (intro X; specialize (Tf X); congruence).
+        -- intro X. congruence.
+        -- intro X. congruence.
+        -- intro X. eapply all_sealed_lset; eauto.
+      * discriminate.
+    + (* fire *)
+      destruct (bfired s) eqn:Ef; [discriminate|]. inversion Hst; subst s'; clear Hst.
+      apply binv_sub; try assumption; auto.
+      * intros c Hc. destruct (B5 c Hc) as (_ & X & _). discriminate.
+      * rewrite B1. lia.
+      * intros _. apply nth_error_None in Ec. exact Ec.
+  - destruct (nth_error (btargets s) k) as [tg|] eqn:Ek; [|discriminate].
+    assert (Hnn : nth_error (btargets s) k <> None) by congruence.
+    destruct (B2 _ _ Ek) as (Ta & Tb & Tc & Td & Te & Tf).
+    assert (Hupd : forall x, tgt_ok (bcur s) k x ->
+              forall k0 t0, nth_error (lset k x (btargets s)) k0 = Some t0 -> tgt_ok (bcur s) k0 t0).
+    { intros x Hx k0 t0 Hk0. destruct (lset_nth_cases _ _ _ _ _ _ Hnn Hk0) as [[-> ->]|[Hne Hk1]]; [exact Hx | now apply B2]. }
+    destruct (rp tg) eqn:Er.
+    + (* seal *)
+      inversion Hst; subst s'; clear Hst. unfold binv, b_set; cbn [bdata bfired btargets bcur bearly bfin].
+      pose proof (bsum_lset _ _ _ {| batt := batt tg; bp := bp tg; rp := if batt tg then RSub else RDone |} Ek) as Hs.
+      assert (Hcc : bcontrib {| batt := batt tg; bp := bp tg; rp := if batt tg then RSub else RDone |} = bcontrib tg).
+      { unfold bcontrib; cbn [bp batt rp]. rewrite Er. destruct (bp tg); try reflexivity. destruct (batt tg); reflexivity. }
+      split; [lia|]. split; [|split; [rewrite lset_length; exact B3|split; [exact B4|]]].
+      * apply Hupd. unfold tgt_ok; cbn [bp batt rp]. repeat split; auto.
+        -- intros _. unfold bsealed; cbn [rp]. destruct (batt tg); reflexivity.
+        -- intros _ _. unfold bsealed; cbn [rp]. destruct (batt tg); reflexivity.
+        -- destruct (batt tg); [reflexivity | discriminate].
+      * intros c Hc. destruct (B5 c Hc) as (X & Y & Z). repeat split; auto.
+        eapply all_sealed_lset; eauto. intros _. unfold bsealed; cbn [rp]. destruct (batt tg); reflexivity.
+    + (* depend_data_sub of the releaser *)
+      inversion Hst; subst s'; clear Hst.
+      assert (Hatt : batt tg = true) by (now apply Tf).
+      assert (Hd : bp tg = BDone) by (destruct (bp tg) eqn:E; try reflexivity; assert (batt tg = false) by (apply Tc; congruence); congruence).
+      pose proof (bsum_lset _ _ _ {| batt := batt tg; bp := bp tg; rp := RDone |} Ek) as Hs.
+      unfold bcontrib at 1 2 in Hs. cbn [bp batt rp] in Hs. rewrite Hd, Hatt, Er in Hs.
+      apply binv_sub; try assumption.
+      * rewrite Hd, Hatt. rewrite B1. lia.
+      * apply Hupd. unfold tgt_ok; cbn [bp batt rp]. repeat split; auto; discriminate.
+      * rewrite lset_length. exact B3.
+      * auto.
+      * intro X. eapply all_sealed_lset; eauto.
+    + discriminate.
+Qed.
+
+Theorem af_bind_finish : forall n s, BReach n s ->
+  bearly s = false /\ (forall c, bfin s = Some c -> c = 0 /\ bfired s = true /\ all_sealed (btargets s) = true).
+Proof.
+  intros n s Hr.
+  assert (H : binv s) by (apply (inv_reachable bst bstep binv (binit n) (binv_init n) binv_step s Hr)).
+  destruct H as (_ & _ & _ & B4 & B5). auto.
+Qed.
+
+Example af_bind_example :
+  let s := run bst bstep (binit 2) [0;0;1;1;0;0;2;2;0]%nat in bfin s = Some 0 /\ bfired s = true /\ all_sealed (btargets s) = true.
+Proof. vm_compute. repeat split; reflexivity. Qed.
